@@ -20,6 +20,10 @@
 (*                  (deviation "ResetAtEnd": reset only on success);       *)
 (*                  start of Formulate (deviation "NoReset": they are      *)
 (*                  kept, so parameters of an earlier call leak).          *)
+(*   nameOwner      the builder whose name generator last (re)built the    *)
+(*                  parity-partner map; irrelevant when every generator    *)
+(*                  owns its map, decisive under deviation "SharedNameMap" *)
+(*                  (one class-level dict shared by all generators).       *)
 (***************************************************************************)
 EXTENDS Integers, FiniteSets, Sequences, TLC
 
@@ -31,11 +35,14 @@ CONSTANTS Builders,     \* builder objects sharing the reaction
           MaxOps,       \* bound on the length of a history
           Dev
 
-VARIABLES cfg, choice, perm, out, dpdCache, leaked, nops
-vars == <<cfg, choice, perm, out, dpdCache, leaked, nops>>
+VARIABLES cfg, choice, perm, out, dpdCache, leaked, nops, nameOwner
+vars == <<cfg, choice, perm, out, dpdCache, leaked, nops, nameOwner>>
+
+\* naming options of the amplitude name generator (builder.naming.insert_parent_helicities / insert_child_helicities)
+Namings == {"default", "parent", "nochild"}
 
 None == "none"
-DefaultCfg == [align |-> "none", stable |-> "none", scalar |-> FALSE, coup |-> FALSE]
+DefaultCfg == [align |-> "none", stable |-> "none", scalar |-> FALSE, coup |-> FALSE, naming |-> "default"]
 Refs == { a \in Aligns : a \notin {"none", "axis"} }
 
 Init == /\ cfg = [b \in Builders |-> DefaultCfg]
@@ -45,24 +52,28 @@ Init == /\ cfg = [b \in Builders |-> DefaultCfg]
         /\ dpdCache = [r \in Refs |-> <<>>]
         /\ leaked = [b \in Builders |-> {}]
         /\ nops = 0
+        /\ nameOwner \in Builders
 
 Tick == nops < MaxOps /\ nops' = nops + 1
 Key(b) == <<cfg[b], choice[b], perm[b]>>
 
 SetAlign(b, a) == /\ Tick /\ cfg' = [cfg EXCEPT ![b].align = a]
-                  /\ UNCHANGED <<choice, perm, out, dpdCache, leaked>>
+                  /\ UNCHANGED <<choice, perm, out, dpdCache, leaked, nameOwner>>
 SetStable(b, s) == /\ Tick /\ cfg' = [cfg EXCEPT ![b].stable = s]
-                   /\ UNCHANGED <<choice, perm, out, dpdCache, leaked>>
+                   /\ UNCHANGED <<choice, perm, out, dpdCache, leaked, nameOwner>>
 SetScalar(b, x) == /\ Tick /\ cfg' = [cfg EXCEPT ![b].scalar = x]
-                   /\ UNCHANGED <<choice, perm, out, dpdCache, leaked>>
+                   /\ UNCHANGED <<choice, perm, out, dpdCache, leaked, nameOwner>>
 SetCoup(b, x) == /\ Tick /\ cfg' = [cfg EXCEPT ![b].coup = x]
-                 /\ UNCHANGED <<choice, perm, out, dpdCache, leaked>>
+                 /\ UNCHANGED <<choice, perm, out, dpdCache, leaked, nameOwner>>
+\* builder.naming.<flag> = ...: the generator rebuilds its parity-partner map
+SetNaming(b, x) == /\ Tick /\ cfg' = [cfg EXCEPT ![b].naming = x] /\ nameOwner' = b
+                   /\ UNCHANGED <<choice, perm, out, dpdCache, leaked>>
 \* dynamics.assign(name, builder): all decays of the resonance with that name
 Assign(b, n, t) == /\ Tick /\ choice' = [choice EXCEPT ![b][n] = t]
-                   /\ UNCHANGED <<cfg, perm, out, dpdCache, leaked>>
+                   /\ UNCHANGED <<cfg, perm, out, dpdCache, leaked, nameOwner>>
 \* adapter.permutate_registered_topologies(): idempotent
 Permutate(b) == /\ Tick /\ perm' = [perm EXCEPT ![b] = TRUE]
-                /\ UNCHANGED <<cfg, choice, out, dpdCache, leaked>>
+                /\ UNCHANGED <<cfg, choice, out, dpdCache, leaked, nameOwner>>
 
 SubstKey(b) == <<cfg[b].stable, cfg[b].scalar>>
 \* an inadmissible configuration makes formulate() raise after it has started filling its
@@ -80,7 +91,9 @@ Formulate(b) ==
          stale2 == "NoReset" \in Dev /\ leaked[b] \ { n \in Names : choice[b][n] # None } # {}
          \* a call that raised half-way (inadmissible configuration) left its partial dictionaries behind
          stale3 == "ResetAtEnd" \in Dev /\ ~Fails(b) /\ "partial" \in leaked[b]
-     IN /\ out' = [out EXCEPT ![b] = [key |-> Key(b), stale |-> stale1 \/ stale2 \/ stale3]]
+         \* the shared parity-partner map was last rebuilt by a generator with other naming options
+         stale4 == "SharedNameMap" \in Dev /\ nameOwner # b /\ cfg[nameOwner].naming # cfg[b].naming
+     IN /\ out' = [out EXCEPT ![b] = [key |-> Key(b), stale |-> stale1 \/ stale2 \/ stale3 \/ stale4]]
         /\ dpdCache' = IF "DpdCacheAliasing" \in Dev /\ usesDpd /\ dpdCache[a] = <<>>
                        THEN [dpdCache EXCEPT ![a] = SubstKey(b)] ELSE dpdCache
         /\ leaked' = IF "NoReset" \in Dev
@@ -88,12 +101,13 @@ Formulate(b) ==
                      ELSE IF "ResetAtEnd" \in Dev
                      THEN [leaked EXCEPT ![b] = IF Fails(b) THEN {"partial"} ELSE {}]
                      ELSE leaked
-  /\ UNCHANGED <<cfg, choice, perm>>
+  /\ UNCHANGED <<cfg, choice, perm, nameOwner>>
 
 Next == \E b \in Builders :
           \/ \E a \in Aligns : SetAlign(b, a)
           \/ \E s \in Stables : SetStable(b, s)
           \/ \E x \in BOOLEAN : SetScalar(b, x) \/ SetCoup(b, x)
+          \/ \E x \in Namings : SetNaming(b, x)
           \/ \E n \in Names, t \in Tags : Assign(b, n, t)
           \/ Permutate(b)
           \/ Formulate(b)
